@@ -19,8 +19,9 @@ by query by C11):
 CLOSED: fragments F0 (single vertex) and F1 (plain and @optional edges in arbitrary nesting,
 coercions, filters on variables and on tags of the same / earlier vertices incl. tags from missing
 optional scopes, edge parameters): `interp_eq_spec_F0`, `interp_eq_spec_F1`,
-`interp_ok_iff_spec_ok_F1`, `interp_eq_spec_F1_default_env`.  OPEN: F2 (@recurse; the stage lemma
-`recurse_is_reach` below is its core), F3 (@fold).  Every run reports how many generated queries
+`interp_ok_iff_spec_ok_F1`, `interp_eq_spec_F1_default_env`, and F2 (+ `@recurse`, built on the stage
+lemma `recurse_is_reach` below): `interp_eq_spec_F2`, `interp_ok_iff_spec_ok_F2`,
+`interp_eq_spec_F2_default_env`.  OPEN: F3 (@fold).  Every run reports how many generated queries
 fall into the proved fragment with the hypotheses `Hyps` satisfied (driver request `hyps-c01`).
 
 Proved so far — the stage lemmas the induction is assembled from, each tying one engine mechanism
@@ -167,3 +168,6 @@ end TF.C01
 #print axioms TF.C01.interp_eq_spec_F1
 #print axioms TF.C01.interp_ok_iff_spec_ok_F1
 #print axioms TF.C01.interp_eq_spec_F1_default_env
+#print axioms TF.C01.interp_eq_spec_F2
+#print axioms TF.C01.interp_ok_iff_spec_ok_F2
+#print axioms TF.C01.interp_eq_spec_F2_default_env
